@@ -93,6 +93,15 @@ func (e *annEndpoint) ServeHTTP(w http.ResponseWriter, req *http.Request) {
 var c10Addrs = []string{"/ip4/8.8.8.8/tcp/3104/http", "/dns4/pub.example.com/tcp/443/https", "/ip6/2606:4700::1111/tcp/80/http",
 	"/ip4/10.0.0.1/tcp/3104", "/dns/a.b.c/tcp/1/http/http-path/ipni%2Fv1", "/ip4/1.2.3.4/udp/4001/quic-v1"}
 
+// c10AllAddrs adds addresses that already contain a /p2p component: a
+// circuit-relay address and an address ending in another peer's ID.
+func c10AllAddrs() []string {
+	relay, other := Identity("V8").ID.String(), Identity("V9").ID.String()
+	return append(append([]string{}, c10Addrs...),
+		"/ip4/5.6.7.8/tcp/4001/p2p/"+relay+"/p2p-circuit",
+		"/dns4/gw.example.net/tcp/443/https/p2p/"+other)
+}
+
 func c10Cid(tp *simkit.Tape, i int) cid.Cid {
 	data := []byte(fmt.Sprintf("ad-%d", i))
 	switch tp.Choose(6, "cidkind") {
@@ -375,7 +384,7 @@ func runC10(r *simkit.Run, c Cfg) {
 			var maddrs []multiaddr.Multiaddr
 			na := tp.Choose(5, "naddr")
 			for k := 0; k < na; k++ {
-				maddrs = append(maddrs, must(multiaddr.NewMultiaddr(c10Addrs[tp.Choose(len(c10Addrs), "addr")])))
+				maddrs = append(maddrs, must(multiaddr.NewMultiaddr(c10AllAddrs()[tp.Choose(len(c10AllAddrs()), "addr")])))
 			}
 			m.SetAddrs(maddrs)
 			// addresses with protocol codes this build does not know, at any
